@@ -48,13 +48,12 @@ impl ReferenceIdRequest {
         )?;
         writer.write_all(&ef_len.to_be_bytes())?;
         writer.write_all(&self.offset.to_be_bytes())?;
-        writer.write_all(&[0; 2])?;
 
-        let words = payload_len / 4;
-        assert_eq!(payload_len % 4, 0);
-
-        for _ in 1..words {
-            writer.write_all(&[0; 4])?;
+        // The decoder accepts any payload length, so fill up the rest of the
+        // payload and pad it to a whole number of words
+        let total = usize::from(payload_len).max(2).next_multiple_of(4);
+        for _ in 2..total {
+            writer.write_all(&[0; 1])?;
         }
 
         Ok(())
